@@ -315,7 +315,7 @@ def run_memory(case: dict[str, Any]) -> dict[str, Any]:
 # --------------------------------------------------------------------------- snapshot of a db_path instance
 
 
-def snapshot_dbpath(sim: core.Sim, D: str, names_hint: list[str] | None = None, alt_case: int = 0, live: bool = False) -> dict[str, Any]:
+def snapshot_dbpath(sim: core.Sim, D: str, names_hint: list[str] | None = None, alt_case: int = 0, live: bool = False, by_statement: bool = False) -> dict[str, Any]:
     """Observable state of the instance inside the current `with fakesnow.patch(db_path=D)`: connect to every
     database that has a file, then catalog + rows (engine system functions) and comments + VARCHAR lengths (API)."""
     import snowflake.connector
@@ -347,9 +347,15 @@ def snapshot_dbpath(sim: core.Sim, D: str, names_hint: list[str] | None = None, 
                 c0.close()
         conns = {}
         errors = {}
+        via_stmt: list[str] = []
         for i, db in enumerate(names):
             try:
-                conns[db] = snowflake.connector.connect(database=(db.lower() if (i + alt_case) % 2 else db))
+                if by_statement and i > 0 and conns:
+                    # the other way a later process reaches a database whose file exists: by statement, from the first connection
+                    next(iter(conns.values())).cursor().execute(f"CREATE DATABASE IF NOT EXISTS {db.lower() if (i + alt_case) % 2 else db}")
+                    via_stmt.append(db)
+                else:
+                    conns[db] = snowflake.connector.connect(database=(db.lower() if (i + alt_case) % 2 else db))
             except BaseException as e:  # noqa: BLE001
                 errors[db] = f"{type(e).__name__}: {str(e)[:160]}"
         cur = core.raw(fs.duck_conn).cursor()
@@ -383,6 +389,13 @@ def snapshot_dbpath(sim: core.Sim, D: str, names_hint: list[str] | None = None, 
                 snap["ext"] = ext_after
         finally:
             cur.close()
+        for db in via_stmt:
+            # the catalog and the rows above were read with this database reached by statement only; its comments and
+            # lengths are read like the others', through a connection of its own (made now, after the catalog was looked at)
+            try:
+                conns[db] = snowflake.connector.connect(database=db)
+            except BaseException as e:  # noqa: BLE001
+                snap["attach_errors"][db] = f"{type(e).__name__}: {str(e)[:160]}"
         for db, conn in conns.items():
             try:
                 c = conn.cursor()
@@ -540,13 +553,13 @@ def proc_a(w: int, D: str, case: dict[str, Any], fault: dict[str, Any], referenc
     os._exit(0)
 
 
-def proc_b(w: int, D: str, names: list[str] | None = None) -> None:
+def proc_b(w: int, D: str, names: list[str] | None = None, by_statement: bool = False) -> None:
     import fakesnow
 
     sim = core.begin(D)
     try:
         with sim.quiet(), fakesnow.patch(db_path=D):
-            snap = snapshot_dbpath(sim, D, names, alt_case=1)
+            snap = snapshot_dbpath(sim, D, names, alt_case=1, by_statement=by_statement)
         _emit(w, {"ev": "snap", "snap": snap, "listing": sorted(os.listdir(D))})
     except BaseException as e:  # noqa: BLE001
         _emit(w, {"ev": "restart_error", "error": f"{type(e).__name__}: {str(e)[:300]}"})
@@ -808,8 +821,10 @@ def run(case: dict[str, Any]) -> dict[str, Any]:
             D = os.path.join(base, f"p{pi}")
             os.makedirs(D)
             code, ra = in_child(proc_a, D, case, fault, False, ref_ok)
-            _, rb = in_child(proc_b, D, all_names)
+            _, rb = in_child(proc_b, D, all_names, pi % 2 == 1)  # every other restart reaches the further databases by statement
             pairs += 1
+            if pi % 2 == 1 and len(all_names) > 1:
+                probes["restart_reaches_database_by_statement"] = probes.get("restart_reaches_database_by_statement", 0) + 1
             shutil.rmtree(D, ignore_errors=True)
             started = [r["i"] for r in ra if r["ev"] == "op_start"]
             done = [r["i"] for r in ra if r["ev"] == "op_done"]
